@@ -6,6 +6,8 @@
 //	   outer contains inner contains a point  =>  key(outer) <= key(inner) <= d(point)
 //	C  the real Collection (in-process, verifapi.KnnCollection) after random histories: order,
 //	   completeness, and Hlb on the node rectangles the real R-tree actually evaluates
+//	E  NEARBY while the collection is written by other connections (concurrent.go); the lock
+//	   discipline that makes one traversal see one tree is proved in Props/C13iso.v
 //	D  black-box server: NEARBY ... DISTANCE after random histories: printed distances
 //	   non-decreasing, every spatial object once, DISTANCE == the client-computed distance,
 //	   radius replies == {d <= r}, LIMIT k == prefix of the unlimited reply, and Model.Knn run
@@ -378,6 +380,11 @@ func (x *run) checkOrder(ids []string, ds []float64) bool {
 		if !present {
 			continue
 		}
+		if o.kind == "string" {
+			x.fail("oracle", "knn-non-spatial-returned", fmt.Sprintf("NEARBY returned %s at %v m, but the id holds a STRING value (its last write was %q): it is not a positioned object of the collection", id, ds[i], strings.Join(o.setArgs("k", id), " ")), nil, ds[i], nil)
+			ok = false
+			break
+		}
 		d := dist(x.q, o.r)
 		if d != ds[i] {
 			x.fail("oracle", "knn-distance-value", fmt.Sprintf("DISTANCE of %s is %v, the distance function on its rectangle %v gives %v", id, ds[i], o.r, d), nil, ds[i], d)
@@ -670,6 +677,45 @@ func polarCorpus() *history {
 	return h
 }
 
+// kindSwitchCorpus: an id changes kind under replacement.  Stage 0: a geometry is replaced by a
+// STRING value (the id must leave the spatial index: Collection.setFill removes the PREVIOUS object
+// according to the previous object's kind); stage 1: the id is then deleted; stage 2: the other
+// direction, a STRING value replaced by a geometry, and a geometry replaced by a geometry of another
+// type.  Around them enough neighbours for a two-level R-tree.
+func kindSwitchCorpus(stage int) *history {
+	h := &history{objs: map[string]gobj{}}
+	do := func(id string, o *gobj) {
+		if o == nil {
+			delete(h.objs, id)
+			h.ops = append(h.ops, []string{"DEL", "k", id})
+			return
+		}
+		h.objs[id] = *o
+		h.ops = append(h.ops, o.setArgs("k", id))
+	}
+	pt := func(la, lo float64) *gobj { return &gobj{kind: "point", r: rect{la, lo, la, lo}} }
+	for i := 0; i < 90; i++ {
+		do("n"+strconv.Itoa(i), pt(33+0.01*float64(i%10), -115-0.01*float64(i/10)))
+	}
+	do("truck1", pt(33.5001, -115.5001))
+	do("truck2", pt(33.51, -115.51))
+	do("truck3", &gobj{kind: "bounds", r: rect{33.6, -115.6, 33.61, -115.59}})
+	do("truck1", &gobj{kind: "string", val: "retired"})
+	do("truck3", &gobj{kind: "string", val: "retired too"})
+	if stage >= 1 {
+		do("truck1", nil)
+	}
+	if stage >= 2 {
+		do("truck4", &gobj{kind: "string", val: "new"})
+		do("truck4", pt(33.5002, -115.5002))
+		do("truck3", pt(33.6, -115.6))
+		do("truck2", &gobj{kind: "bounds", r: rect{33.51, -115.51, 33.52, -115.5}})
+		do("truck5", &gobj{kind: "string", val: "a"})
+		do("truck5", &gobj{kind: "string", val: "b"})
+	}
+	return h
+}
+
 func (x *run) blackBoxQuery(c *srv.Conn, rng *rand.Rand, key string, sample bool) {
 	r := x.r
 	qa := []string{"POINT", fl(x.q[0]), fl(x.q[1])}
@@ -908,6 +954,13 @@ func blackBox(r *hx.Result, cfg hx.Config, drv *model.Driver, rng *rand.Rand, ro
 					c.MustDo(op...)
 				}
 				queries = [][2]float64{q, {-45, -90}, {90, 0}}
+			} else if round <= 4 {
+				h = kindSwitchCorpus(round - 2)
+				for _, op := range h.ops {
+					c.MustDo(op...)
+				}
+				r.Dist("hist:kind-switch-corpus")
+				queries = [][2]float64{{33.5, -115.5}, {33.6, -115.6}, {0, 0}}
 			} else {
 				n := []int{0, 1, 5, 40, 90, 200, 420}[rng.Intn(7)]
 				h = randHistory(rng, n, func(op []string, id string, o *gobj) {
@@ -933,11 +986,12 @@ func blackBox(r *hx.Result, cfg hx.Config, drv *model.Driver, rng *rand.Rand, ro
 }
 
 func runC13(r *hx.Result, cfg hx.Config) {
-	r.Rule = "one case = (dataset reached by a random history of SET/overwrite/DEL over points, rectangles, polygons, linestrings and strings; query point; radius / LIMIT): non-trivial = distinct case whose unlimited reply holds at least two different distances. Plus samples of the lower-bound hypothesis on nested rectangles (non-trivial = 0 < key(outer) < key(inner))."
+	r.Rule = "one case = (dataset reached by a random history of SET/overwrite/DEL over points, rectangles, polygons, linestrings and strings; query point; radius / LIMIT): non-trivial = distinct case whose unlimited reply holds at least two different distances. Plus samples of the lower-bound hypothesis on nested rectangles (non-trivial = 0 < key(outer) < key(inner)). Plus NEARBY queries in every output form answered while writer connections change the same collection (non-trivial = reply with at least two different distances)."
 	r.Assumptions = []string{
 		"Hlb (trusted, sampled exactly, no tolerance): the key of a node rectangle (clamped to the valid range, scaled by 1-1e-7) does not exceed the distance of any object whose rectangle it contains (geodesic point-to-rectangle bound, float64 trigonometry)",
 		"the R-tree keeps every object under nodes whose rectangles contain the object's rectangle (tidwall/rtree, not verified); the harness checks Hlb on the node rectangles the real tree evaluates",
 		"client-side distances are computed with the server's own distance function through verifapi (collection.geodeticDistAlgo); point objects are cross-checked against geo.DistanceTo",
+		"one NEARBY traverses one tree: proved from the regenerated lock tables (Props/C13iso.v: mutations of a collection only under the exclusive server lock, traversals under at least the shared lock for the whole handler) and sampled by the concurrent oracle (readers in every output form against writers issuing every kind of write; each reply must be explainable by the states every id could have been in between send and receive); the schedules reached are a sample",
 		"the theorems hold for every queue discipline satisfying queue_ok, proved for the list queue and for the transcribed binary heap (Proofs/KnnHeap.v); that the Go heap is that transcription is sampled (knn-heap-model-not-min-queue); the real R-tree shape is not observable, so order inside a group of equal distances is not compared",
 	}
 	rng := rand.New(rand.NewSource(cfg.Seed))
@@ -946,12 +1000,12 @@ func runC13(r *hx.Result, cfg hx.Config) {
 		panic(err)
 	}
 	defer drv.Close()
-	hlb, ip, bb := 400000, 60, 16
+	hlb, ip, bb := 400000, 60, 19
 	if cfg.Tier == "thorough" {
-		hlb, ip, bb = 5000000, 600, 80
+		hlb, ip, bb = 5000000, 600, 83
 	}
 	if cfg.Search {
-		hlb, ip, bb = 2000000, 400, 30
+		hlb, ip, bb = 2000000, 400, 33
 	}
 	// E: NEARBY while the collection is written (concurrent.go): objects, writer and reader
 	// connections, seconds with both running
